@@ -16,6 +16,9 @@ added, changed and RELEASED (NaN).  What the control file must carry is the obje
 the read-back prescriptions are compared with it, a fresh object constructed independently with the same content must
 write the same bytes, a second write of the same object must write the same bytes and leave the conditions unchanged,
 and read -> modify -> write -> read must give the modified state.
+Size boundaries (round 4, seeded C03-7): stream `size-boundary` - a few large-but-cheap inputs whose sections have row counts just
+below / at / above powers of two (65536 and 131072 in particular; 2^12 .. 2^15 for the smaller sections), built vectorised from
+recorded generator parameters and judged by the same oracle (oracle only).
 """
 import shutil
 
@@ -64,7 +67,14 @@ RULE = ('seeded generator: a combinatorial mesh as in C01 (arbitrary ids / order
         'second write of the same object (same bytes; or 1-2 more modifications between the two writes), an independently constructed fresh object with the snapshot content '
         '(same bytes), read -> modify (0-3 ops) -> write -> read starting from the written file or from the file that '
         'addresses node groups. Node-group stream: 1-3 groups (plus ALL) over arbitrary node subsets (unreferenced nodes '
-        'included) used in place of explicit ids in a random subset of the rows. distinct = distinct input JSON; '
+        'included) used in place of explicit ids in a random subset of the rows. Stream `size-boundary` (round 4): per quick run two '
+        'large-but-cheap inputs built vectorised from recorded generator parameters (hex brick / plate / column of 4 000 - 70 000 nodes, '
+        'ids ascending / shuffled / sparse / ~2e9; conditions over random node subsets in arbitrary row order whose NaN pattern holds '
+        'EXACTLY the requested number of prescriptions): one table kind just above 65536 rows, one scalar kind above 65536 and one '
+        'table kind above 131072 rows, further sections around 2^12 .. 2^15 / 10^4 rows (n-1, n, n+1, n+r), 30 % with an in-place edit '
+        'through .data before write(); thorough: every kind at 65535 / 65536 / 65537, table kinds at 131071 / 131072 / 131073 / 196609, '
+        'scalar kinds above 131072; same oracle as everywhere (snapshot just before write(), the object unchanged by write(), '
+        'prescription multisets and solution type after read-back), vectorised. distinct = distinct input JSON; '
         'non-trivial = at least one prescription in the state that is written')
 ASSUMPTIONS = [
     'constraint tables have the 3 translational dofs (the reader allocates 3 columns; every fixture of femio does); '
@@ -1039,6 +1049,254 @@ def outside_streams(ctx, n):
             ctx.count(f'outside:cflux+pure_cflux:raises:{type(e).__name__}')
 
 
+# ------------------------------------------------------------------ size boundaries (round 4, class G; seeded C03-7)
+#
+# The small cases above have at most a few dozen rows per section.  A writer / reader that works block by block, preallocates,
+# or switches algorithm at a size is only exercised by sections whose ROW COUNT crosses such a size.  This stream builds a few
+# large-but-cheap inputs (vectorised: a hex brick / plate / column of 4 000 .. 140 000 nodes, conditions over random node subsets
+# in arbitrary row order with an arbitrary NaN pattern holding EXACTLY the requested number of prescriptions) whose sections have
+# row counts just below / at / above powers of two (2^12 .. 2^17, in particular 65536 and 131072) and judges them with THE SAME
+# oracle as `check_object`, vectorised: snapshot of (.ids, .data) just before write() -> write -> the object still holds the
+# snapshot -> read back -> solution type and prescription multiset per kind to the digits of the section's format.  No model
+# correspondence here (the line protocol is not made for 200 000 rows; the theorems are size-independent) - the oracle suffices.
+# The input is recorded as its generator parameters (`inp['big']`: shape, numpy seed, id style, rows per kind), from which
+# `big_build` rebuilds it deterministically.
+
+BIG_ID_STYLES = ['ascending', 'shuffled', 'sparse', 'large']
+
+
+def big_build(spec):
+    from femio import FEMData, FEMAttribute, FEMElementalAttribute
+    rs = np.random.default_rng(spec['seed'])
+    nx, ny, nz = spec['shape']
+    n = nx * ny * nz
+    style = spec['id_style']
+    if style == 'ascending':
+        ids = np.arange(1, n + 1, dtype=np.int64)
+    elif style == 'shuffled':
+        ids = rs.permutation(n).astype(np.int64) + 1
+    elif style == 'sparse':
+        ids = rs.permutation(3 * n)[:n].astype(np.int64) + 1
+    else:
+        ids = rs.permutation(n).astype(np.int64) + 2_000_000_000
+    ii, jj, kk = np.meshgrid(np.arange(nx), np.arange(ny), np.arange(nz), indexing='ij')
+    coords = np.stack([ii.ravel(), jj.ravel(), kk.ravel()], axis=1) * 0.5
+    c = (ii * ny * nz + jj * nz + kk)[:-1, :-1, :-1].ravel()
+    o = lambda a, b, d: c + a * ny * nz + b * nz + d      # noqa
+    conn = np.stack([o(0, 0, 0), o(1, 0, 0), o(1, 1, 0), o(0, 1, 0), o(0, 0, 1), o(1, 0, 1), o(1, 1, 1), o(0, 1, 1)], axis=1)
+    eids = rs.permutation(len(conn)).astype(np.int64) + 1
+    nodes = FEMAttribute('NODE', ids=ids, data=coords, silent=True)
+    el = FEMAttribute('hex', ids=eids, data=ids[conn], silent=True)
+    fd = X.quiet(lambda: FEMData(nodes=nodes, elements=FEMElementalAttribute('ELEMENT', {'hex': el})))
+    fd.settings['solution_type'] = spec['solution']
+    for k, rows in spec['kinds']:
+        if k in TABLES:
+            m = min(n, int(rs.integers(-(-rows // 3), rows + 1)))        # ceil(rows / 3) <= m <= rows: 1 .. 3 values per row on average
+            sub = ids[rs.permutation(n)[:m]]
+            data = np.full(3 * m, np.nan)
+            cells = rs.permutation(3 * m)[:rows]
+            vals = rs.uniform(-1, 1, rows) * 10.0 ** rs.integers(-6, 7, rows)
+            vals[rs.random(rows) < .05] = 0.0
+            data[cells] = vals
+            data = data.reshape(m, 3)
+        else:
+            sub = ids[rs.permutation(n)[:rows]]
+            data = (rs.uniform(-1, 1, rows) * 10.0 ** rs.integers(-6, 7, rows)).reshape(rows, 1)
+        if spec.get('construct', {}).get(k) == 'update_data':
+            X.quiet(fd.constraints.update_data, sub.copy(), {k: data})
+        else:
+            fd.constraints[k] = FEMAttribute(k, ids=sub.copy(), data=data, silent=True)
+    for k, frac in spec.get('poke', []):
+        # one public in-place modification through the array `.data` returns: a random fraction of the PRESCRIBED cells gets a new
+        # value (the number of prescriptions - the row count of the section - stays what the spec says)
+        arr = fd.constraints[k].data
+        flat = arr.reshape(-1)
+        idx = np.flatnonzero(~np.isnan(flat))
+        pick = idx[rs.random(len(idx)) < frac]
+        flat[pick] = rs.uniform(-9, 9, len(pick))
+        if not np.shares_memory(flat, arr):     # (never on this tree; keeps the generator honest if reshape copied)
+            arr[...] = flat.reshape(arr.shape)
+    return fd
+
+
+def big_snapshot(fd):
+    snap = {'solution': str(fd.settings.get('solution_type')), 'kinds': {}}
+    for k in fd.constraints.keys():
+        if k in TABLES + SCALARS:
+            a = fd.constraints[k]
+            ids = np.array(a.ids, dtype=np.int64)
+            snap['kinds'][k] = (ids, np.array(a.data, dtype=float).reshape(len(ids), -1))
+    return snap
+
+
+def big_presc(ids, data):
+    """the prescription multiset as three aligned arrays (node, dof, value), sorted by (node, dof, value)"""
+    ids = np.asarray(ids, dtype=np.int64)
+    data = np.asarray(data, dtype=float).reshape(len(ids), -1)
+    r, c = np.nonzero(~np.isnan(data))
+    node, dof, val = ids[r], c + 1, data[r, c]
+    order = np.lexsort((val, dof, node))
+    return node[order], dof[order], val[order]
+
+
+def big_same(got, want, tol):
+    if len(got[0]) != len(want[0]) or not (np.array_equal(got[0], want[0]) and np.array_equal(got[1], want[1])):
+        return False
+    return bool(np.all(np.abs(got[2] - want[2]) <= tol * np.abs(want[2])))
+
+
+def big_head(p, m=6):
+    return [(int(i), int(d), float(v)) for i, d, v in zip(p[0][:m], p[1][:m], p[2][:m])]
+
+
+def big_malformed(cnt_file):
+    """diagnostic for the replay file: data lines of the control file whose field count differs from the first data line of
+    their section"""
+    bad, want, sec = [], None, None
+    for no, ln in enumerate(cnt_file.read_text().split('\n'), 1):
+        if ln.startswith('!'):
+            sec, want = ln, None
+        elif ln.strip() and sec is not None and sec.split(',')[0].strip() in ('!BOUNDARY', '!SPRING', '!CLOAD', '!FIXTEMP', '!CFLUX'):
+            nf = ln.count(',')
+            want = nf if want is None else want
+            if nf != want and len(bad) < 3:
+                bad.append({'line': no, 'section': sec, 'text': ln[:120]})
+    return bad
+
+
+def big_evaluate(ctx, rep, spec):
+    from femio import FEMData
+    fd = big_build(spec)
+    snap = big_snapshot(fd)
+    want = {k: big_presc(*v) for k, v in snap['kinds'].items()}
+    rows = {k: len(p[0]) for k, p in want.items()}
+    d = ctx.tmp / 'big'
+    if d.exists():
+        shutil.rmtree(d)
+    d.mkdir(parents=True)
+    try:
+        try:
+            X.quiet(fd.write, 'fistr', d / 'mesh')
+        except Exception as e:  # noqa
+            rep.fail(f'big:write-raises:{type(e).__name__}', f'write("fistr") of conditions with {rows} rows raised {e!r}', repr(e))
+            return rows
+        after = big_snapshot(fd)
+        if after['solution'] != snap['solution'] or list(after['kinds']) != list(snap['kinds']) or any(
+                not (np.array_equal(after['kinds'][k][0], snap['kinds'][k][0])
+                     and after['kinds'][k][1].tobytes() == snap['kinds'][k][1].tobytes()) for k in snap['kinds']):
+            rep.fail('big:write-changed-conditions', 'write() changed the conditions the object holds', None)
+        try:
+            fd2 = X.quiet(FEMData.read_files, 'fistr', [str(d / 'mesh.msh'), str(d / 'mesh.cnt')])
+        except Exception as e:  # noqa
+            rep.fail(f'big:read-raises:{type(e).__name__}', f'reading back the written files (sections of {rows} rows) raised {e!r}',
+                     {'exception': repr(e), 'malformed_lines': big_malformed(d / 'mesh.cnt')})
+            return rows
+        sol = str(fd2.settings.get('solution_type'))
+        if sol != snap['solution']:
+            rep.fail('big:solution', f'solution type {snap["solution"]} read back as {sol}', sol)
+        for k in TABLES + SCALARS:
+            w = want.get(k, (np.zeros(0, np.int64),) * 2 + (np.zeros(0),))
+            if k in fd2.constraints:
+                a = fd2.constraints[k]
+                g = big_presc(a.ids, a.data)
+            else:
+                g = (np.zeros(0, np.int64),) * 2 + (np.zeros(0),)
+            if not big_same(g, w, TOL[k]):
+                j = 0
+                m = min(len(g[0]), len(w[0]))
+                neq = np.flatnonzero((g[0][:m] != w[0][:m]) | (g[1][:m] != w[1][:m]) | ~(np.abs(g[2][:m] - w[2][:m]) <= TOL[k] * np.abs(w[2][:m])))
+                j = int(neq[0]) if len(neq) else m
+                rep.fail('big:' + k, f'{k}: {len(w[0])} prescriptions at write(), {len(g[0])} read back; first difference at sorted '
+                         f'position {j}: written {big_head([x[j:] for x in w], 3)} read {big_head([x[j:] for x in g], 3)}',
+                         {'n_written': len(w[0]), 'n_read': len(g[0]), 'written': big_head([x[j:] for x in w]), 'read': big_head([x[j:] for x in g]),
+                          'malformed_lines': big_malformed(d / 'mesh.cnt')})
+    finally:
+        shutil.rmtree(d, ignore_errors=True)
+    return rows
+
+
+def big_shape(rnd, n_min):
+    """a brick / plate / column of hexes with at least n_min nodes (and not many more)"""
+    kind = rnd.choice(['cube', 'plate', 'column'])
+    if kind == 'cube':
+        a = int(np.ceil(n_min ** (1 / 3)))
+        shape = [a, a, a]
+        while shape[0] * shape[1] * (shape[2] - 1) >= n_min:
+            shape[2] -= 1
+    elif kind == 'plate':
+        a = int(np.ceil((n_min / 2) ** .5))
+        shape = [2, a, -(-n_min // (2 * a))]
+    else:
+        shape = [2, 2, -(-n_min // 4)]
+    rnd.shuffle(shape)
+    return shape
+
+
+def big_spec(rnd, main, others=()):
+    """main = [(kind, rows) ...] the sections whose size is the point; others: smaller sections at lesser powers of two"""
+    kinds = list(main) + list(others)
+    need = max([-(-r // 3) if k in TABLES else r for k, r in kinds])
+    n_min = need + rnd.randint(0, max(3, need // 50))
+    rnd.shuffle(kinds)
+    spec = {'shape': big_shape(rnd, n_min), 'seed': rnd.randrange(2 ** 32), 'id_style': rnd.choice(BIG_ID_STYLES),
+            'solution': rnd.choice(['STATIC', 'HEAT']), 'kinds': [list(kr) for kr in kinds],
+            'construct': {k: rnd.choice(['setitem', 'setitem', 'update_data']) for k, _ in kinds},
+            'poke': [[k, rnd.choice([.001, .01, .3])] for k, _ in kinds if rnd.random() < .3]}
+    return spec
+
+
+def around(rnd, size):
+    return size + rnd.choice([-1, 0, 1, 1, rnd.randint(2, 400), rnd.randint(2, 4000)])
+
+
+def big_plan(ctx):
+    """the specs of this run.  quick: two (a table section just above 2^16 rows on ~22 000 nodes; a scalar section above 2^16
+    and a table section above 2^17 rows on ~66 000 nodes), each with smaller sections around lesser powers of two.  thorough:
+    in addition every kind just below / at / above 65536 and the table kinds (and one scalar kind) around 131072"""
+    rnd = ctx.rng
+    B = 1 << 16
+    small = lambda: rnd.choice([1 << 12, 1 << 13, 1 << 14, 1 << 15, 10000])     # noqa
+    cf = lambda: rnd.choice(['cflux', 'pure_cflux'])                             # noqa
+    t3 = rnd.sample(TABLES, 3)
+    s2 = rnd.sample(['fixtemp', cf()], 2)
+    plan = [big_spec(rnd, [(t3[0], B + rnd.choice([1, rnd.randint(2, 300), rnd.randint(2, 3000)]))],
+                     [(t3[1], around(rnd, small())), (s2[0], around(rnd, small()))]),
+            big_spec(rnd, [(s2[1], B + rnd.choice([1, rnd.randint(2, 300)])), (t3[1], 2 * B + rnd.choice([1, rnd.randint(2, 3000)]))],
+                     [(t3[2], around(rnd, small()))])]
+    if not ctx.quick:
+        for j, size in enumerate([B - 1, B, B + 1, 2 * B - 1, 2 * B, 2 * B + 1, 3 * B + 1]):
+            plan.append(big_spec(rnd, [(TABLES[j % 3], size)], [(TABLES[(j + 1) % 3], around(rnd, small())), (SCALARS[j % 3], around(rnd, small()))]))
+        for j, size in enumerate([B - 1, B, B + 1]):
+            plan.append(big_spec(rnd, [(SCALARS[j], size)], [(TABLES[j], around(rnd, rnd.choice([B, 2 * B])))]))
+        plan.append(big_spec(rnd, [('fixtemp', 2 * B + 1), (cf(), 2 * B - 1)], [(rnd.choice(TABLES), around(rnd, 4 * B))]))
+    return plan
+
+
+def big_stream(ctx):
+    for spec in big_plan(ctx):
+        rep = Report()
+        inp = {'big': spec}
+        rows = {}
+        try:
+            rows = big_evaluate(ctx, rep, spec)
+        finally:
+            for sig, what, observed in rep.findings:
+                ctx.fail(sig, what, inp, observed)
+        nx, ny, nz = spec['shape']
+        ctx.case(C.hashlib.sha1(C.json.dumps(inp, sort_keys=True).encode()).hexdigest(),
+                 sample={'stream': 'size-boundary', 'n_nodes': nx * ny * nz, 'shape': spec['shape'], 'ids': spec['id_style'],
+                         'rows_per_section': rows, 'solution': spec['solution']}, nontrivial=True)
+        ctx.count('big:cases')
+        ctx.count('big:ids:' + spec['id_style'])
+        for k, r in rows.items():
+            b = max(p for p in range(0, 20) if (1 << p) <= max(r, 1))
+            ctx.count(f'big:{k}:rows in [2^{b}, 2^{b + 1})')
+            if r > (1 << 16):
+                ctx.count('big:sections of more than 65536 rows')
+            if abs(r - (1 << b)) <= 1 or abs(r - (1 << (b + 1))) <= 1:
+                ctx.count('big:sections with a row count within 1 of a power of two')
+
+
 def run(ctx):
     rnd = ctx.rng
     n = ctx.n(250, 2500)
@@ -1054,11 +1312,19 @@ def run(ctx):
         extra = rnd.choice(['twice', 'fresh', 'fresh', 'rmw', 'rmw'] + [None] * 5)
         eval_case(ctx, case, n_edits=n_edits, extra=extra)
     outside_streams(ctx, ctx.n(8, 40))
+    big_stream(ctx)
 
 
 def replay(ctx, obj):
     inp = obj['input']
     rep = Report()
+    if 'big' in inp:        # size-boundary stream: the input is its generator parameters
+        try:
+            rows = big_evaluate(ctx, rep, inp['big'])
+        except Exception as e:  # noqa
+            return {'fails': True, 'raised': repr(e)}
+        return {'fails': bool(rep.findings), 'rows_per_section': rows,
+                'property_violations': [[sig, what, observed] for sig, what, observed in rep.findings]}
     try:
         res = evaluate(ctx, rep, inp, None)
     except Exception as e:  # noqa
